@@ -282,8 +282,21 @@ def raw_config(cfg):
     return {ELECTION_ID: [sub]}
 
 
+def _reorder(rows, mode):
+    """Row order of an input file is not information: 'reversed' / 'scattered' (by a digest of the unit id) orders."""
+    if not mode or mode == "sorted":
+        return rows
+    if mode == "reversed":
+        return rows[::-1]
+    if mode == "scattered":
+        import hashlib
+
+        return sorted(rows, key=lambda r: hashlib.sha1(r["geographic_unit_fips"].encode()).hexdigest())
+    raise ValueError(mode)
+
+
 def frames(units, cfg):
-    """(baseline DataFrame, feed DataFrame) sorted by unit id."""
+    """(baseline DataFrame, feed DataFrame) sorted by unit id unless cfg['row_order'] = {'baseline': mode, 'feed': mode}."""
     import pandas as pd
 
     district = is_district_office(cfg["office"])
@@ -331,6 +344,8 @@ def frames(units, cfg):
     ] + (["district"] if district else [])
     bcols += sorted({k for u in units for k in u.get("extra_baseline", {})})
     fcols = ["postal_code", "geographic_unit_fips", "results_turnout", "results_dem", "results_gop", "percent_expected_vote"]
+    order = cfg.get("row_order") or {}
+    brow, frow = _reorder(brow, order.get("baseline")), _reorder(frow, order.get("feed"))
     baseline = pd.DataFrame(brow, columns=bcols)
     feed = pd.DataFrame(frow, columns=fcols)
     if cfg.get("float_counts"):
@@ -389,13 +404,16 @@ def table_to_obj(df):
     return {"columns": cols, "rows": rows}
 
 
-def run_estimates(units, cfg, client=None, keep_client=False, frames_override=None):
+def run_estimates(units, cfg, client=None, keep_client=False, frames_override=None, kwargs_override=None):
     """One real ModelClient.get_estimates.  Returns {'ok': tables} or {'error': (type, msg)}.
-    frames_override=(baseline, feed) hands over caller-owned DataFrame objects instead of freshly built ones."""
+    frames_override=(baseline, feed) hands over caller-owned DataFrame objects instead of freshly built ones;
+    kwargs_override hands over caller-owned keyword argument objects (e.g. long-lived contest lists) as they are."""
     from elexmodel.client import ModelClient
 
     baseline, feed = frames_override if frames_override is not None else frames(units, cfg)
     mp, kwargs = call_kwargs(units, cfg)
+    if kwargs_override:
+        kwargs.update(kwargs_override)
     client = client or ModelClient()
     try:
         res = client.get_estimates(
